@@ -10,7 +10,7 @@ import sympy as sp
 
 from ..algebra import Untranslatable, is_zero, to_sympy
 from ..core.cfg import CFG, ENTRY, EXIT, RAISE
-from ..core.terms import (c, evaluate, fn_name, kw, n, pretty, subterms)
+from ..core.terms import (cmp_, not_, pc, phi_, c, evaluate, fn_name, kw, n, pretty, subterms)
 from ..domains import concrete
 from .c07 import enum_members
 from .common import LIB_FACTS, is_call, method, short
@@ -266,8 +266,7 @@ def check(ctx):
         ctx.ob("C16.R3", se, "slow windows double", tt_after in (
             ("op", "*", tt_c, c(2)), ("op", "*", c(2), tt_c)), detail=short(tt_after or ()))
         cond_l = lp["cond"]
-        ok_g = cond_l in (("cmp", "<=", ("op", "*", c(3), tt_c), tl_c),
-                          ("cmp", ">=", tl_c, ("op", "*", c(3), tt_c)))
+        ok_g = cond_l == cmp_("<=", ("op", "*", c(3), tt_c), tl_c)
         ctx.ob("C16.R3", se, "a doubling window d is appended only while 3*d <= time left "
                              "(so the remaining window is never shorter than the next one)",
                ok_g and not slow_loop[3], detail=short(cond_l or ()),
